@@ -446,4 +446,130 @@ theorem coup_toNet {tl : Bool} {addr : Nat} {w w' : NW tl} {i : Nat} {d : List N
                         simp [World.set, End.book, End.deliveredVital, vp_append, hc.vital]
                       sub := by simp [World.set, End.book, hc.sub] }
 
+/-! ### calls of the endpoint -/
+
+/-- the state after a move in which the ghost's `b` did what the endpoint's peer did -/
+theorem coup_b {tl : Bool} {addr : Nat} {w : NW tl} (hc : Coup addr w) {net1 : Net} (hi1 : PInv net1.peers)
+    {r : NetSim.Ret Conn6.Conn Packet} {sub : List (Bytes × Bool)} {req' : Option (Nat × P6.Alt)}
+    (hslot : ∀ pid p1, slot net1.peers addr = some (pid, p1) → p1.conn = r.conn ∧
+      (p1.conn.state = .unconnected → req' = w.req ∧ ∃ p, slot w.net.peers addr = some (pid, p) ∧
+        p.conn.state = .unconnected ∧ p1.token = p.token)) :
+    Coup addr { net := net1, g := w.g.set .b (w.g.b.book (P := proto6 tl) r sub), born := true, req := req'
+                netOut := w.netOut ++ r.sent
+                netVital := w.netVital ++ NetSim.vitalPayloads r.events
+                netSub := w.netSub ++ sub } where
+  pinv := hi1
+  conn := by intro pid p1 h; exact ⟨(hslot pid p1 h).1, rfl⟩
+  fresh := by intro hb; cases hb
+  pend := by
+    intro pid p1 h hu
+    obtain ⟨hreq, p, hp, hpu, htok⟩ := (hslot pid p1 h).2 hu
+    obtain ⟨i, alt, dg, h1, h2, h3⟩ := hc.pend pid p hp hpu
+    exact ⟨i, alt, dg, by rw [hreq]; exact h1, h2, by rw [htok]; exact h3⟩
+  canon := hc.canon
+  out := by
+    simp only [World.set, End.book, hc.out, List.map_append]
+    exact congrArg (List.map (fun x => x.pkt) w.g.b.out ++ ·)
+      (map_pkt_stamp (P := (proto6 tl).Packet) _ _ _).symm
+  vital := by simp [World.set, End.book, End.deliveredVital, vp_append, hc.vital]
+  sub := by simp [World.set, End.book, hc.sub]
+
+/-- the state after a move that does not touch `addr`'s slot and emits nothing for it -/
+theorem coup_same {tl : Bool} {addr : Nat} {w : NW tl} (hc : Coup addr w) {net1 : Net} (hi1 : PInv net1.peers)
+    (hslot : slot net1.peers addr = slot w.net.peers addr) : Coup addr { w with net := net1 } where
+  pinv := hi1
+  conn := by intro pid p h; rw [hslot] at h; exact hc.conn pid p h
+  fresh := by intro hb; rw [hslot]; exact hc.fresh hb
+  pend := by intro pid p h hu; rw [hslot] at h; exact hc.pend pid p h hu
+  canon := hc.canon
+  out := hc.out
+  vital := hc.vital
+  sub := hc.sub
+
+theorem subOf_none {addr : Nat} {net : Net} {r : Net.Ret} {d : List Nat} {op : Op}
+    (hp : projOp net addr op = none) : subOf addr net r (.net d op) = [] := by
+  cases op <;> try rfl
+  rename_i pid x v
+  simp only [projOp] at hp
+  by_cases ha : addrOf net pid = some addr
+  · simp [ha] at hp
+  · simp [subOf, ha]
+
+theorem ghostMove_none {tl : Bool} {addr : Nat} {w : NW tl} {d : List Nat} {op : Op}
+    (hp : projOp w.net addr op = none) : ghostMove tl addr w (.net d op) = none := by
+  simp [ghostMove, hp]
+
+/-- what a call submits -/
+def callSub (accepted : Bool) : Call → List (Bytes × Bool)
+  | .send x v => if accepted then [(x, v)] else []
+  | _ => []
+
+/-- the ghost's step for a call on `b` -/
+theorem ghost_call_b {tl : Bool} (g : World (proto6 tl)) (d : List Nat) (c : Call)
+    {r0 : NetSim.Ret Conn6.Conn Packet} (h : P6.call g.now d g.b.conn c = .ok r0) :
+    NetSim.step g (.call .b d c) = some (g.set .b (g.b.book (P := proto6 tl) r0 (callSub r0.accepted c))) := by
+  have h' : (proto6 tl).call g.now d g.b.conn c = .ok r0 := h
+  cases c <;> simp only [NetSim.step, World.get, h', callSub]
+
+/-- the peer the slot of `addr` holds is the peer a call on its id means -/
+theorem slot_of_addrOf {net : Net} {addr pid : Nat} (hi : PInv net.peers) (h : addrOf net pid = some addr) :
+    ∃ p, slot net.peers addr = some (pid, p) ∧ lookup net.peers pid = some p := by
+  unfold addrOf at h
+  cases hl : lookup net.peers pid with
+  | none => simp [hl] at h
+  | some p =>
+    simp [hl] at h
+    exact ⟨p, by rw [← h]; exact lookup_slot hi hl, rfl⟩
+
+/-- the state after a call for which the ghost has nothing to do: nothing was emitted for `addr`, its
+slot is as before or (its peer having existed) empty -/
+theorem coup_quiet {tl : Bool} {addr : Nat} {w w' : NW tl} {m : NMove} {net1 : Net}
+    {r : Net.Ret} {o : Out} {g1 : World (proto6 tl)} (hc : Coup addr w) (hi1 : PInv net1.peers)
+    (hgm : ghostMove tl addr w m = none) (hsub : subOf addr w.net r m = [])
+    (hslot : slot net1.peers addr = slot w.net.peers addr ∨ (slot net1.peers addr = none ∧ w.born = true))
+    (hs : (o.for addr).sent = []) (hv : vitalOfNet (o.for addr).events = [])
+    (hg : ghostStep tl addr w m = some g1)
+    (hw : w' = { net := net1, g := g1, born := w.born || created addr w net1
+                 req := if created addr w net1 then reqOf m else w.req
+                 netOut := w.netOut ++ (o.for addr).sent.map (·.2)
+                 netVital := w.netVital ++ vitalOfNet (o.for addr).events
+                 netSub := w.netSub ++ subOf addr w.net r m }) : Coup addr w' := by
+  simp only [ghostStep, hgm, Option.some.injEq] at hg
+  subst hg
+  have hcr : created addr w net1 = false := by
+    unfold created
+    rcases hslot with h1 | h1
+    · rw [h1]; cases slot w.net.peers addr <;> rfl
+    · rw [h1.1]; simp
+  rw [hw]
+  simp only [hcr, Bool.or_false, Bool.false_eq_true, if_false, hs, hv, hsub, List.map_nil, List.append_nil]
+  rcases hslot with h1 | h1
+  · exact coup_same hc hi1 h1
+  · exact { pinv := hi1
+            conn := by intro pid p h; rw [h1.1] at h; cases h
+            fresh := by intro hb; rw [h1.2] at hb; cases hb
+            pend := by intro pid p h; rw [h1.1] at h; cases h
+            canon := hc.canon, out := hc.out, vital := hc.vital, sub := hc.sub }
+
+theorem coup_finish {tl : Bool} {addr : Nat} {w w' : NW tl} {m : NMove} {net1 : Net} {r : Net.Ret} {o : Out}
+    {g1 : World (proto6 tl)} {r0 : NetSim.Ret Conn6.Conn Packet} {sub : List (Bytes × Bool)}
+    (hc : Coup addr w) (hi1 : PInv net1.peers)
+    (hw : w' = { net := net1, g := g1, born := w.born || created addr w net1
+                 req := if created addr w net1 then reqOf m else w.req
+                 netOut := w.netOut ++ (o.for addr).sent.map (·.2)
+                 netVital := w.netVital ++ vitalOfNet (o.for addr).events
+                 netSub := w.netSub ++ subOf addr w.net r m })
+    (hg1 : g1 = w.g.set .b (w.g.b.book (P := proto6 tl) r0 sub))
+    (hs : (o.for addr).sent.map (·.2) = r0.sent)
+    (hv : vitalOfNet (o.for addr).events = NetSim.vitalPayloads r0.events)
+    (hsub : subOf addr w.net r m = sub)
+    (hb : (w.born || created addr w net1) = true)
+    (hslot : ∀ pid p1, slot net1.peers addr = some (pid, p1) → p1.conn = r0.conn ∧
+      (p1.conn.state = .unconnected →
+        (if created addr w net1 then reqOf m else w.req) = w.req ∧
+          ∃ p, slot w.net.peers addr = some (pid, p) ∧ p.conn.state = .unconnected ∧ p1.token = p.token)) :
+    Coup addr w' := by
+  rw [hw, hg1, hs, hv, hsub, hb]
+  exact coup_b hc hi1 hslot
+
 end Tw.NetC01
